@@ -1,5 +1,7 @@
 import EgVerif.Proofs.Topic
 import EgVerif.Gen.FactsC14
+import EgVerif.Proofs.TopicIR
+import EgVerif.Proofs.TopicRemoveIR
 /-!
 # C14 — MQTT topic routing equals MQTT 3.1.1 filter matching over any subscribe history
 
@@ -256,5 +258,103 @@ private def oldSubscribePrefix : Trie := insert [a] "c1" 1 Trie.empty   -- SUBSC
 example : find (unsubscribeTM "c1" [] oldSubscribePrefix) [a] = [("c1", 1)] := by decide
 example : (run State.init [.subscribe "c1" [("a".toList, 1), ("a#".toList, 1)], .disconnect "c1"]).trie.isEmpty = true := by
   decide
+
+/-! ### Extension mqtt: regenerated tie by translation (irlib, `harness/factextract/facts_c14_ir.go`)
+
+`Gen/FactsC14IR.findIR` is translated from the body of `TopicManager.findSubscribers` on every run (three nested
+loops, the early exit on an empty frontier, the parent-level `#` loop); proof in `Proofs/TopicIR.lean`.
+`splitTopic` likewise (`splitIR`), and `insert` / `remove` with pointers read as path cursors (`insertIR`, `removeIR`; `Proofs/TopicRemoveIR.lean`). The entry loops `subscribe` / `unsubscribe` are translated too (`subscribeIR`, `unsubscribeIR`); `addClients` is tied under C15 (`addClientsIR` = `addMax`). Not translated: the LRU memo. -/
+
+/-- **`TopicManager.findSubscribers`**: for every trie and every topic string the generated definition returns
+the model's hits (`find`, in the model's order) for a well-formed topic and `none` (error) for a malformed one. -/
+theorem findSubscribers_regenerated_from_source (t : Trie) (topic : List Char) :
+    Gen.FactsC14IR.extractionFailed = false ∧
+    Gen.FactsC14IR.findIR t topic = (split topic).map (find t) :=
+  ⟨by decide, Topic.findSubscribers_regenerated_from_source t topic⟩
+
+/-- **`splitTopic`** (rune loop with `wildCardFlag`, `#` only as the last character, the pre-sized `levels`
+slice filled by index): the generated definition equals the model's `split` on every string; with
+`split_ok_iff_wellFormed` it accepts exactly the well-formed filters. -/
+theorem splitTopic_regenerated_from_source (topic : List Char) :
+    Gen.FactsC14IR.extractionFailed = false ∧ Gen.FactsC14IR.splitIR topic = split topic :=
+  ⟨by decide, Topic.splitTopic_regenerated_from_source topic⟩
+
+example : Gen.FactsC14IR.splitIR "a//+/#".toList = some ["a".toList, [], "+".toList, "#".toList] ∧
+    Gen.FactsC14IR.splitIR "a/b#".toList = none ∧ Gen.FactsC14IR.splitIR "#/a".toList = none ∧
+    Gen.FactsC14IR.splitIR "".toList = some [[]] := by decide
+
+/-- **`TopicManager.insert`** (mutable `*topicNode` cursor: look the child up, create and link it if missing,
+descend; finally `node.clients[clientID] = qos`). Pointers are read as *path cursors* into the functional trie
+(`Model/Topic.lean`: `Ptr`, `childPtr`, `linkPtr`, `setClientPtr` — sound because the heap is a tree); the
+generated definition equals the model's recursive `insert` for every trie, topic, QoS and client. -/
+theorem insert_regenerated_from_source (t : Trie) (topic : List Char) (q : QoS) (c : Client) :
+    Gen.FactsC14IR.extractionFailed = false ∧
+    Gen.FactsC14IR.insertIR t topic q c = (split topic).map (fun ls => insert ls c q t) :=
+  ⟨by decide, Topic.insert_regenerated_from_source t topic q c⟩
+
+example :
+    (Gen.FactsC14IR.insertIR (insert ["a".toList] "c1" 0 Trie.empty) "a/b".toList 1 "c2").map (fun t => find t ["a".toList, "b".toList])
+      = some [("c2", 1)] ∧
+    Gen.FactsC14IR.insertIR Trie.empty "a/#/b".toList 1 "c2" = none := by decide
+
+/-- **`TopicManager.remove`** (walk down collecting the `prevNodes` stack, early `return nil` when a level is
+missing, `delete(node.clients, clientID)`, then the downward pruning loop that deletes empty nodes until the
+first non-empty one). Same path-cursor reading of pointers as for `insert`; the generated definition equals
+the model's `remove` (`removeAux` with bottom-up pruning) for every trie, topic and client. -/
+theorem remove_regenerated_from_source (t : Trie) (topic : List Char) (c : Client) :
+    Gen.FactsC14IR.extractionFailed = false ∧
+    Gen.FactsC14IR.removeIR t topic c = (split topic).map (fun ls => remove ls c t) :=
+  ⟨by decide, Topic.remove_regenerated_from_source t topic c⟩
+
+example :
+    let t := (run State.init [.subscribe "c1" [("a/b/c".toList, 1)], .subscribe "c2" [("a".toList, 0)]]).trie
+    -- the whole branch a/b/c is pruned, "a" (subscribed by c2) stays
+    (Gen.FactsC14IR.removeIR t "a/b/c".toList "c1").map (fun r => (find r ["a".toList, "b".toList, "c".toList],
+        find r ["a".toList], (ptrSub ["a".toList, "b".toList] r).isSome)) = some ([], [("c2", 0)], false) ∧
+    -- a missing level: nothing changes; a malformed filter: error
+    (Gen.FactsC14IR.removeIR t "a/x".toList "c1").map (fun r => find r ["a".toList, "b".toList, "c".toList]) = some [("c1", 1)] ∧
+    (Gen.FactsC14IR.removeIR t "a/#/c".toList "c1").isNone = true := by
+  decide
+
+/-- **`TopicManager.subscribe`** (repaired by fix 7d6df9f): all filters of the packet are validated before the
+first insert — a SUBSCRIBE with a malformed filter changes nothing; otherwise every filter is inserted with its
+own QoS. `mgr.insert` is the model function tied by `insert_regenerated_from_source`. -/
+theorem subscribe_regenerated_from_source (t : Trie) (fs : List (List Char × QoS)) (c : Client) :
+    Gen.FactsC14IR.extractionFailed = false ∧
+    Gen.FactsC14IR.subscribeIR t (fs.map Prod.fst) (fs.map Prod.snd) c = subscribeTM c fs t :=
+  ⟨by decide, Topic.subscribe_regenerated_from_source t fs c⟩
+
+/-- **`TopicManager.unsubscribe`** (repaired): a malformed filter is reported (`true`) but the remaining filters
+are still removed. -/
+theorem unsubscribe_regenerated_from_source (t : Trie) (fs : List (List Char)) (c : Client) :
+    Gen.FactsC14IR.extractionFailed = false ∧
+    Gen.FactsC14IR.unsubscribeIR t fs c = (unsubscribeTM c fs t, !fs.all (fun f => (split f).isSome)) :=
+  ⟨by decide, Topic.unsubscribe_regenerated_from_source t fs c⟩
+
+example :
+    (Gen.FactsC14IR.subscribeIR Trie.empty ["a".toList, "a#".toList] [1, 1] "c1").isNone = true ∧
+    (Gen.FactsC14IR.subscribeIR Trie.empty ["a".toList, "b/+".toList] [1, 0] "c1").map (fun r => (find r ["a".toList], find r ["b".toList, "x".toList]))
+      = some ([("c1", 1)], [("c1", 0)]) ∧
+    (Gen.FactsC14IR.unsubscribeIR (insert ["a".toList] "c1" 1 Trie.empty) ["a#".toList, "a".toList] "c1").2 = true ∧
+    find (Gen.FactsC14IR.unsubscribeIR (insert ["a".toList] "c1" 1 Trie.empty) ["a#".toList, "a".toList] "c1").1 ["a".toList] = [] := by
+  decide
+
+/-- so everything proved about `find` holds for the regenerated definition: after any history it returns exactly
+the matching live subscriptions -/
+theorem regenerated_find_routes_after_any_history (ops : List Op) (topic : List Char) (lv : List Level)
+    (h : split topic = some lv) (x : Client × QoS) :
+    (∃ hits, Gen.FactsC14IR.findIR (run State.init ops).trie topic = some hits ∧ x ∈ hits) ↔
+      x ∈ specFind (specRun [] ops) lv := by
+  rw [(findSubscribers_regenerated_from_source _ topic).2, h]
+  simp only [Option.map_some, Option.some.injEq, exists_eq_left']
+  exact Topic.routing_after_any_history ops lv x
+
+/-- non-vacuity: the generated definition computes on a concrete trie (parent-level `#`, `+`, early exit) -/
+example :
+    let t := (run State.init [.subscribe "c1" [("a/#".toList, 1), ("+/b".toList, 0)], .subscribe "c2" [("a/b".toList, 1)]]).trie
+    Gen.FactsC14IR.findIR t "a".toList = some [("c1", 1)] ∧
+    Gen.FactsC14IR.findIR t "a/b".toList = some [("c1", 1), ("c2", 1), ("c1", 0)] ∧
+    Gen.FactsC14IR.findIR t "x/y/z".toList = some [] ∧
+    Gen.FactsC14IR.findIR t "a/#/b".toList = none := by decide
 
 end EgVerif.C14
